@@ -55,7 +55,8 @@ serde = "1"
         lines.append(f"const _W{i}: fn() = || assert_serde::<{ty}>();")
     with open(os.path.join(wdir, "src", "lib.rs"), "w") as fh:
         fh.write("\n".join(lines) + "\n")
-    env = dict(os.environ, CARGO_NET_OFFLINE="true", CARGO_TARGET_DIR=os.path.join(CACHE, "target-witness"))
+    env = dict(os.environ, CARGO_NET_OFFLINE="true", CARGO_TARGET_DIR=os.path.join(CACHE, "target-witness"),
+               CARGO_INCREMENTAL="0")   # incremental sessions of every analysed tree piled up to tens of GB
     env.pop("RUSTC_WORKSPACE_WRAPPER", None)
     p = subprocess.run(["cargo", "check", "--offline", "--message-format=json", "--lib"], cwd=wdir, env=env,
                        stdout=subprocess.PIPE, stderr=subprocess.PIPE, text=True)
